@@ -8,6 +8,7 @@ import (
 	"fmt"
 	"math/rand"
 	"reflect"
+	"strings"
 	"time"
 
 	"github.com/awalterschulze/gominikanren/gomini"
@@ -67,6 +68,60 @@ func (g *gv) toTerm() *ast.SExpr {
 		return ast.Cons(tagSlice, l)
 	}
 	panic("toTerm " + g.K)
+}
+
+// coqG writes the value as reflecttools sees it (coq/Reflect.v gval), a registered variable pointer as `gvar i` (coq/GCore.v).
+func (g *gv) coqG() string {
+	kids := func() string {
+		parts := make([]string, len(g.F))
+		for i, f := range g.F {
+			parts[i] = f.coqG()
+		}
+		return coqList(parts)
+	}
+	switch g.K {
+	case "tvar", "svar":
+		return "(gvar " + coqN(uint64(g.I)) + ")"
+	case "tnil", "snil":
+		return "GNilPtr"
+	case "sstr":
+		return "(GPtr (GScalar 1%N (" + strings.TrimSuffix(strNum(g.Str), "%N") + ")%Z))"
+	case "tstruct":
+		return "(GStructPtr " + kids() + ")"
+	case "nilslice":
+		return "(GSlice true [])"
+	case "slice":
+		return "(GSlice false " + kids() + ")"
+	}
+	panic("coqG " + g.K)
+}
+
+type gbind struct {
+	k int
+	v *gv
+}
+
+func coqGSub(bs []gbind) string {
+	parts := make([]string, len(bs))
+	for i, b := range bs {
+		parts[i] = "(" + coqN(uint64(b.k)) + ", " + b.v.coqG() + ")"
+	}
+	return coqList(parts)
+}
+
+// bindingsG reads the substitution of a state as (variable number, value description), for the variables of this world.
+func (w *gworld) bindingsG(st *gomini.State) []gbind {
+	out := []gbind{}
+	for i, p := range w.ptrs {
+		key, ok := st.CastVar(p)
+		if !ok {
+			continue
+		}
+		if v, ok := st.Get(key); ok {
+			out = append(out, gbind{i, w.fromGo(v)})
+		}
+	}
+	return out
 }
 
 // gworld holds a gomini state with its variables (in creation order) under one placeholder policy.
@@ -226,6 +281,9 @@ func (w *gworld) fromGo(x any) *gv {
 		}
 		return &gv{K: "sstr", Str: *v}
 	case []*GT:
+		if v == nil {
+			return &gv{K: "nilslice"}
+		}
 		out := &gv{K: "slice"}
 		for _, e := range v {
 			out.F = append(out.F, w.fromGo(e))
